@@ -410,7 +410,7 @@ Definition ex_case : case :=
   {| k_text := text; k_refs := ex_refs; k_recs := ex_recs; k_stream := encode_file text ex_refs ex_recs;
      k_whole := whole; k_ivs := intervals_buf current names (buf_of ex_recs);
      k_ivs2 := Some (intervals_buf current names (buf_of ex_recs));
-     k_after_iv := whole;
+     k_after_iv := whole; k_sess := [whole; whole]; k_sess_iv := [intervals_buf current names (buf_of ex_recs)];
      k_chunked := [(74, [1; 1; 1], whole); (183, [3], whole)];
      k_writes := [ {| w_mode := 1; w_k := 0; w_idx := [2; 0]; w_eof := true;
                       w_stream := encode_file text ex_refs sel; w_reread := decode_buf current names (buf_of sel);
